@@ -148,6 +148,7 @@ func checkC03(c *vh.Ctx) {
 
 	checkConcurrencyFacts(c)
 	poolCorrespondence(c)
+	rerunStage(c, bin, "C03") // the same line gives the same files whatever an earlier run left in the result folder
 
 	// ---------------------------------------------------------------- projects, roots, solo runs
 	nProj := c.N(8, 14)
